@@ -24,6 +24,21 @@
 // t.publishNotify: nil dereference or a select on a nil channel — a data race of the real code,
 // outside the model), Go's random choice between a readable publishNotify and a closed
 // closeNotify (covered outcome by outcome through the close-after flag), context cancellation.
+//
+// The fake delivers into the chan the transporter hands to NotifyPublish (as the real library
+// does), never into a chan of its own.  Unlike streadway/amqp + the wabbit wrapper it does NOT
+// close that chan when the channel closes (a read from the closed chan yields a nil Confirmation
+// and confirm.Ack() panics: fail-stop, excluded above).  What is already delivered stays readable
+// in the chan's buffer after a closure whenever the transporter's next step does not depend on
+// Go's random select (Publish error + closure, nack + closure: the transporter returns at once);
+// for a silent closure and for a closure after an ack the fake removes what is still buffered
+// ("not delivered yet, lost") so that the select in waitForConfirmations has one ready case only.
+// On the code as it stands the buffer of a closed channel is never read again (closeHandler drops
+// t.publishNotify and setupChannel makes a new chan), which is why the model discards it at the
+// closure; a transporter that keeps reading it is caught by the monitor
+// (".../stale-acks-survive-channel-close") and by the correspondence.
+// A transporter that does not come back within blockWait is cut: `blocked` is an observation
+// (FBlocked in the case), never a harness failure.
 package rabbit
 
 import (
@@ -38,6 +53,8 @@ import (
 	"runtime"
 	"sort"
 	"strings"
+	"sync"
+	"sync/atomic"
 	"time"
 
 	"verifharness/core"
@@ -115,6 +132,7 @@ type consRec struct {
 	pub    int // pubRec index
 	during int
 	seq    int
+	curCh  uint64 // the transporter's current channel when it read the confirmation
 }
 
 type result struct {
@@ -125,8 +143,15 @@ type result struct {
 	writtenSeq map[int]int
 	seq        int
 	terminated bool
+	blocked    bool // the transporter did not come back within blockWait: case cut there
+	blockedAt  int  // batch being fed
+	blockedQ   int  // confirmations delivered to the current channel and not read, at the cut
 	anomalies  []string
 }
+
+// blockWait bounds the wait for the outcome of one batch.  Every step of a run is immediate
+// (ZeroBackOff, synchronous fake), so a transporter that is silent for this long is blocked.
+const blockWait = 2 * time.Second
 
 // ---- fake broker ----
 
@@ -150,6 +175,8 @@ type fake struct {
 	locked  bool
 	feeding int
 	inner   backoff.BackOff
+	mu      sync.Mutex  // guards res and the fake's state against the harness cutting the case
+	stopped atomic.Bool // case cut: the fake answers nothing and records nothing any more
 }
 
 type fakeChan struct {
@@ -175,20 +202,40 @@ type fakeConf struct {
 // Ack is the first thing the transporter calls on a confirmation it has read: the consumption point.
 func (c *fakeConf) Ack() bool {
 	f := c.ch.f
+	f.mu.Lock()
+	defer f.mu.Unlock()
+	if f.stopped.Load() {
+		return c.ack
+	}
 	f.res.seq++
-	f.res.cons = append(f.res.cons, consRec{pub: c.pub, during: f.feeding, seq: f.res.seq})
+	cur := uint64(0)
+	if f.cur != nil {
+		cur = f.cur.id
+	}
+	f.res.cons = append(f.res.cons, consRec{pub: c.pub, during: f.feeding, seq: f.res.seq, curCh: cur})
 	if c.close {
-		c.ch.closeNow()
-	} else if len(c.ch.backlog) > 0 {
+		// after a nack the transporter returns at once: what is delivered may stay buffered;
+		// after an ack it would select again: the rest counts as not delivered and is lost
+		c.ch.closeNow(!c.ack)
+	} else if len(c.ch.backlog) > 0 && !c.ch.closed {
 		n := c.ch.backlog[0]
 		c.ch.backlog = c.ch.backlog[1:]
-		c.ch.queue <- n
+		c.ch.deliver(n)
 	}
 	return c.ack
 }
+
+func (ch *fakeChan) deliver(cf *fakeConf) {
+	select {
+	case ch.queue <- cf:
+	default:
+		ch.f.res.anomalies = append(ch.f.res.anomalies, "NotifyPublish chan full: confirmation dropped by the fake")
+	}
+}
 func (c *fakeConf) DeliveryTag() uint64 { return c.tag }
 
-func (ch *fakeChan) closeNow() {
+// closeNow: the channel closes.  keep: leave what is already delivered in the chan's buffer.
+func (ch *fakeChan) closeNow(keep bool) {
 	if ch.closed {
 		return
 	}
@@ -200,6 +247,9 @@ func (ch *fakeChan) closeNow() {
 	ch.closed = true
 	close(ch.notifyClose)
 	ch.backlog = nil
+	if keep || ch.queue == nil {
+		return
+	}
 	for {
 		select {
 		case <-ch.queue:
@@ -211,7 +261,7 @@ func (ch *fakeChan) closeNow() {
 }
 
 func (ch *fakeChan) qlen() int {
-	if ch == nil || ch.closed {
+	if ch == nil || ch.closed || ch.queue == nil {
 		return 0
 	}
 	return len(ch.queue) + len(ch.backlog)
@@ -226,8 +276,14 @@ func (f *fake) syncPoint() {
 	if ch := f.cur; ch != nil && ch.closed && ch.hasHandler && !ch.handled {
 		deadline := time.Now().Add(10 * time.Second)
 		for !rt.VerifChannelIsNil(f.t) {
+			if f.stopped.Load() {
+				return
+			}
 			if time.Now().After(deadline) {
-				panic("RABBIT harness: closeHandler did not reset the channel within 10s")
+				f.mu.Lock()
+				f.res.anomalies = append(f.res.anomalies, "closeHandler did not reset the channel within 10s")
+				f.mu.Unlock()
+				return
 			}
 			runtime.Gosched()
 			time.Sleep(20 * time.Microsecond)
@@ -239,6 +295,11 @@ func (f *fake) syncPoint() {
 // BackOff
 func (f *fake) NextBackOff() time.Duration {
 	f.syncPoint()
+	f.mu.Lock()
+	defer f.mu.Unlock()
+	if f.stopped.Load() {
+		return backoff.Stop
+	}
 	f.res.obs = append(f.res.obs, obs{Kind: "fail", Cf: rt.VerifChannelConfirms(f.t), Qlen: f.cur.qlen()})
 	d := f.inner.NextBackOff()
 	if d == backoff.Stop {
@@ -248,11 +309,18 @@ func (f *fake) NextBackOff() time.Duration {
 }
 func (f *fake) Reset() {
 	f.syncPoint()
+	f.mu.Lock()
+	defer f.mu.Unlock()
 	f.inner.Reset()
 }
 
 // ConnectionGetter
 func (f *fake) GetConnection(ctx context.Context) (wabbit.Conn, error) {
+	f.mu.Lock()
+	defer f.mu.Unlock()
+	if f.stopped.Load() {
+		return nil, errors.New("case cut")
+	}
 	a := "ok"
 	if len(f.ss) > 0 {
 		a, f.ss = f.ss[0], f.ss[1:]
@@ -267,13 +335,17 @@ func (f *fake) GetConnection(ctx context.Context) (wabbit.Conn, error) {
 
 // wabbit.Conn
 func (f *fake) Channel() (wabbit.Channel, error) {
+	f.mu.Lock()
+	defer f.mu.Unlock()
+	if f.stopped.Load() {
+		return nil, errors.New("case cut")
+	}
 	if f.pending == "chan" {
 		f.res.obs = append(f.res.obs, obs{Kind: "setup", Setup: "chan", Chan: f.nchan})
 		return nil, errors.New("scripted: channel not opened")
 	}
 	f.nchan++
-	ch := &fakeChan{f: f, id: f.nchan, nextTag: 1,
-		notifyClose: make(chan wabbit.Error), queue: make(chan wabbit.Confirmation, 4096)}
+	ch := &fakeChan{f: f, id: f.nchan, nextTag: 1, notifyClose: make(chan wabbit.Error)}
 	f.cur = ch
 	return ch, nil
 }
@@ -283,11 +355,21 @@ func (f *fake) NotifyClose(c chan wabbit.Error) chan wabbit.Error    { return c 
 
 // wabbit.Channel
 func (ch *fakeChan) NotifyClose(c chan wabbit.Error) chan wabbit.Error { return ch.notifyClose }
+
+// NotifyPublish: confirmations go to the chan the caller registers, as with the real library.
 func (ch *fakeChan) NotifyPublish(c chan wabbit.Confirmation) chan wabbit.Confirmation {
-	return ch.queue
+	ch.f.mu.Lock()
+	defer ch.f.mu.Unlock()
+	ch.queue = c
+	return c
 }
 func (ch *fakeChan) Confirm(noWait bool) error {
 	f := ch.f
+	f.mu.Lock()
+	defer f.mu.Unlock()
+	if f.stopped.Load() {
+		return errors.New("case cut")
+	}
 	if f.pending == "confirm" {
 		f.res.obs = append(f.res.obs, obs{Kind: "setup", Setup: "confirm", Chan: ch.id})
 		return errors.New("scripted: confirm.select failed")
@@ -311,6 +393,15 @@ func optMode(opt wabbit.Option) uint64 {
 
 func (ch *fakeChan) Publish(exc, route string, msg []byte, opt wabbit.Option) error {
 	f := ch.f
+	f.mu.Lock()
+	defer f.mu.Unlock()
+	if f.stopped.Load() {
+		return errors.New("case cut")
+	}
+	if ch.queue == nil {
+		f.res.anomalies = append(f.res.anomalies, "Publish before NotifyPublish")
+		return errors.New("no confirmation listener")
+	}
 	if ch != f.cur || ch.closed {
 		f.res.anomalies = append(f.res.anomalies, "Publish on a closed or superseded channel")
 		return errors.New("channel closed")
@@ -330,7 +421,7 @@ func (ch *fakeChan) Publish(exc, route string, msg []byte, opt wabbit.Option) er
 		f.res.pubs = append(f.res.pubs, rec)
 		f.res.obs = append(f.res.obs, o)
 		if a.Close {
-			ch.closeNow()
+			ch.closeNow(true) // sendMessages returns at once: delivered confirmations stay buffered
 		}
 		return fakeErr{"scripted: publish failed"}
 	case "silent":
@@ -339,7 +430,7 @@ func (ch *fakeChan) Publish(exc, route string, msg []byte, opt wabbit.Option) er
 		ch.nextTag++
 		f.res.pubs = append(f.res.pubs, rec)
 		f.res.obs = append(f.res.obs, o)
-		ch.closeNow()
+		ch.closeNow(false)
 		return nil
 	}
 	rec.tag, rec.verdict, rec.closing = ch.nextTag, "nack", a.Close
@@ -354,7 +445,7 @@ func (ch *fakeChan) Publish(exc, route string, msg []byte, opt wabbit.Option) er
 	if f.c.Lazy && (len(ch.queue) > 0 || len(ch.backlog) > 0) {
 		ch.backlog = append(ch.backlog, cf)
 	} else {
-		ch.queue <- cf
+		ch.deliver(cf)
 	}
 	return nil
 }
@@ -362,13 +453,12 @@ func (ch *fakeChan) Publish(exc, route string, msg []byte, opt wabbit.Option) er
 // Close is not called by the transporter as it stands; a repaired transporter that drops its
 // channel calls it while holding channelLock, so it must not go through closeNow's lock.
 func (ch *fakeChan) Close() error {
+	ch.f.mu.Lock()
+	defer ch.f.mu.Unlock()
 	if !ch.closed {
 		ch.closed = true
 		close(ch.notifyClose)
 		ch.backlog = nil
-		for len(ch.queue) > 0 {
-			<-ch.queue
-		}
 	}
 	return nil
 }
@@ -427,50 +517,82 @@ func runImpl(c rcase) *result {
 			_, _ = b.Add(&marshaller.MarshalledMessage{Operation: m.Op, Table: m.Table, Json: []byte(m.Body),
 				TimeBasedKey: fmt.Sprintf("%d-1", 900+bi), WalStart: uint64(100*bi + mi + 1), Transaction: fmt.Sprintf("%d", 900+bi)})
 		}
-		f.feeding = bi // the transporter is parked on inputChan: no concurrent access
-		timeout := time.After(20 * time.Second)
+		f.mu.Lock()
+		f.feeding = bi // the transporter is parked on inputChan
+		f.mu.Unlock()
+		timeout := time.After(blockWait)
+		taken := false
 		select {
 		case in <- b:
+			taken = true
 		case <-txns: // closed: the worker has stopped
 			res.terminated = true
 		case <-timeout:
-			panic("RABBIT harness: transporter does not take the batch")
 		}
 		if res.terminated {
 			break
 		}
-		select {
-		case _, ok := <-txns:
-			if !ok {
-				res.terminated = true
-			} else {
-				res.written = append(res.written, bi)
-				res.seq++
-				res.writtenSeq[bi] = res.seq
-				res.obs = append(res.obs, obs{Kind: "written", B: bi, Cf: rt.VerifChannelConfirms(t), Qlen: f.cur.qlen()})
+		outcome := false
+		if taken {
+			select {
+			case _, ok := <-txns:
+				outcome = true
+				if !ok {
+					res.terminated = true
+				} else {
+					f.mu.Lock()
+					res.written = append(res.written, bi)
+					res.seq++
+					res.writtenSeq[bi] = res.seq
+					res.obs = append(res.obs, obs{Kind: "written", B: bi, Cf: rt.VerifChannelConfirms(t), Qlen: f.cur.qlen()})
+					f.mu.Unlock()
+				}
+			case <-timeout:
 			}
-		case <-timeout:
-			panic(fmt.Sprintf("RABBIT harness: no outcome for batch %d within 20s (transporter blocked): %s", bi, core.RawJSON(c)))
 		}
-		for len(statsChan) > 0 {
-			<-statsChan
+		if outcome {
+			for len(statsChan) > 0 {
+				<-statsChan
+			}
+			if res.terminated {
+				break
+			}
+			continue
 		}
-		if res.terminated {
-			break
+		// no outcome within blockWait: the transporter is blocked.  Cut the case here: the fake
+		// stops answering and recording, the observation is `blocked`.
+		f.stopped.Store(true)
+		f.mu.Lock()
+		res.blocked, res.blockedAt = true, bi
+		if f.cur != nil && f.cur.queue != nil {
+			res.blockedQ = len(f.cur.queue) + len(f.cur.backlog)
 		}
+		f.mu.Unlock()
+		break
 	}
+	f.stopped.Store(true)
 	sh.CancelFunc()
 	select {
 	case <-done:
-	case <-time.After(20 * time.Second):
-		panic("RABBIT harness: transporter did not stop after cancellation")
+	case <-time.After(blockWait):
+		// abandoned: it cannot touch res any more (the fake is stopped)
+		f.mu.Lock()
+		res.anomalies = append(res.anomalies, "transporter goroutine did not stop after cancellation")
+		f.mu.Unlock()
 	}
-	if f.locked { // not reachable: every closure is followed by NextBackOff or Reset
+	f.mu.Lock()
+	defer f.mu.Unlock()
+	if f.locked {
 		rt.VerifUnlockChannel(t)
 		f.locked = false
-		res.anomalies = append(res.anomalies, "channelLock still held by the fake at the end")
 	}
-	return res
+	// hand back a private copy: an abandoned goroutine keeps no reference to it
+	out := *res
+	out.obs = append([]obs{}, res.obs...)
+	out.pubs = append([]pubRec{}, res.pubs...)
+	out.cons = append([]consRec{}, res.cons...)
+	out.anomalies = append([]string{}, res.anomalies...)
+	return &out
 }
 
 // ---- Gallina ----
@@ -538,6 +660,9 @@ func caseGallina(c rcase, r *result) string {
 	if r.terminated {
 		fin = "FTerminated"
 	}
+	if r.blocked {
+		fin = "FBlocked"
+	}
 	return core.GTuple(core.GStr(c.Exchange), core.GNat(c.Retries), core.GList(bs), core.GList(ps), core.GList(ss), core.GList(os_), fin)
 }
 
@@ -550,6 +675,10 @@ func cause(r *result, chans map[uint64]bool, upto int) string {
 	nack, perr := false, false
 	for _, k := range r.cons {
 		p := r.pubs[k.pub]
+		if k.seq <= upto && chans[k.curCh] && p.ch != k.curCh {
+			// a confirmation of an earlier (closed) channel was read on a later channel
+			return "stale-acks-survive-channel-close"
+		}
 		if k.seq <= upto && chans[p.ch] && p.verdict == "nack" && !p.closing {
 			nack = true
 		}
@@ -574,6 +703,24 @@ func monitor(c rcase, r *result) []core.Violation {
 	var vs []core.Violation
 	for _, a := range r.anomalies {
 		vs = append(vs, core.Violation{Property: "C13", Signature: "harness-anomaly", What: a, Case: c})
+	}
+	if r.blocked {
+		// no script of this harness owes the transporter a wait: every accepted publish is answered
+		// (or its channel closes), so a blocked transporter is always a failure
+		sig := "transporter-blocked/waiting-for-confirmations-nobody-owes"
+		if r.blockedQ > 0 {
+			sig = "transporter-blocked/delivered-confirmations-not-read"
+		}
+		vs = append(vs, core.Violation{Property: "C13", Signature: sig,
+			What: fmt.Sprintf("the transporter gave no outcome for batch %d within %v (%d confirmations delivered to its current channel and unread); case cut", r.blockedAt, blockWait, r.blockedQ), Case: c})
+	}
+	for _, k := range r.cons {
+		p := r.pubs[k.pub]
+		if p.ch != k.curCh {
+			vs = append(vs, core.Violation{Property: "C13", Signature: "confirm-of-closed-channel-counted",
+				What: fmt.Sprintf("while working on batch %d on channel %d the transporter read (and counted) the confirmation of tag %d of channel %d, which was closed before", k.during, k.curCh, p.tag, p.ch), Case: c})
+			break
+		}
 	}
 	// channels the transporter published on while working on each batch
 	chansOf := map[int]map[uint64]bool{}
@@ -626,7 +773,7 @@ func monitor(c rcase, r *result) []core.Violation {
 	for _, k := range r.cons {
 		p := r.pubs[k.pub]
 		if p.during != k.during {
-			vs = append(vs, core.Violation{Property: "C13", Signature: "stale-confirm-counted-for-later-batch/" + cause(r, map[uint64]bool{p.ch: true}, k.seq),
+			vs = append(vs, core.Violation{Property: "C13", Signature: "stale-confirm-counted-for-later-batch/" + cause(r, map[uint64]bool{p.ch: true, k.curCh: true}, k.seq),
 				What: fmt.Sprintf("while working on batch %d the transporter read (and counted) the confirmation of tag %d on channel %d, which answers a publish made for batch %d", k.during, p.tag, p.ch, p.during), Case: c})
 			break // one per case is enough
 		}
@@ -693,6 +840,10 @@ func genCase(rng *rand.Rand, mode string) rcase {
 	n := total(c.Batches)
 	ln := n + rng.Intn(2*n+3)
 	fail := 0.08 + rng.Float64()*0.25
+	if mode == "close-unread" {
+		c.Lazy = false // eager: everything published is already in the buffer when the closure comes
+		c.Retries = 1 + rng.Intn(4)
+	}
 	if odd {
 		fail = 0.3 + rng.Float64()*0.5
 		c.Retries = rng.Intn(3)
@@ -711,6 +862,12 @@ func genCase(rng *rand.Rand, mode string) rcase {
 					a = pact{K: "err", Close: true}
 				default:
 					a = pact{K: "silent"}
+				}
+			case "close-unread": // failures that close the channel while delivered confirmations are unread
+				if rng.Intn(3) == 0 {
+					a = pact{K: "err", Close: true}
+				} else {
+					a = pact{K: "conf", Ack: false, Close: true}
 				}
 			case "nack":
 				if rng.Intn(6) == 0 {
@@ -777,8 +934,10 @@ func init() {
 		cases := loadCorpus(corpusDir)
 		for i := 0; i < n; i++ {
 			switch r := rng.Intn(20); {
-			case r < 6:
+			case r < 4:
 				cases = append(cases, genCase(rng, "closure-only"))
+			case r < 6:
+				cases = append(cases, genCase(rng, "close-unread"))
 			case r < 10:
 				cases = append(cases, genCase(rng, "nack"))
 			case r < 13:
@@ -791,7 +950,7 @@ func init() {
 				cases = append(cases, genCase(rng, "adversarial"))
 			}
 		}
-		rep.Rule = "corpus first, then seeded: 30% closure-only scripts (acks; every nack/publish error/silent loss closes the channel — the domain of C13_written_confirmed_partial), 20% nacks that leave the channel open, 15% publish errors that leave the channel open, 10% channel-opening failures (connection, channel, confirm.select) on top of mixed publish failures, 10% mixed, 15% adversarial (failure density 30-80%, 0-2 retries, empty batches, empty/odd table and operation strings, empty exchange). 1-4 batches of 0-5 messages, 0-4 retries, one third with lazy confirmation delivery. Non-trivial: at least one failed attempt and at least one written report or a give-up; distinct by (batches, scripts, retries)."
+		rep.Rule = "corpus first, then seeded: 20% closure-only scripts (acks; every nack/publish error/silent loss closes the channel — the domain of C13_written_confirmed_partial), 10% closure-only with eager delivery where a nack or a publish error closes the channel while later confirmations of the same attempt are delivered and unread (the retry runs on a new channel), 20% nacks that leave the channel open, 15% publish errors that leave the channel open, 10% channel-opening failures (connection, channel, confirm.select) on top of mixed publish failures, 10% mixed, 15% adversarial (failure density 30-80%, 0-2 retries, empty batches, empty/odd table and operation strings, empty exchange). 1-4 batches of 0-5 messages, 0-4 retries, one third with lazy confirmation delivery. Non-trivial: at least one failed attempt and at least one written report or a give-up; distinct by (batches, scripts, retries)."
 		var sb strings.Builder
 		sb.WriteString("From Bifrost.model Require Import Base Rabbit.\nOpen Scope string_scope.\nDefinition cases : list rcase := [\n")
 		seen := map[string]bool{}
@@ -843,6 +1002,9 @@ func init() {
 			}
 			if r.terminated {
 				kinds["terminated"] = true
+			}
+			if r.blocked {
+				kinds["blocked"] = true
 			}
 			if len(r.written) > 0 {
 				kinds["some-written"] = true
@@ -908,9 +1070,16 @@ func replay(cs json.RawMessage) string {
 	}
 	for _, k := range r.cons {
 		p := r.pubs[k.pub]
-		fmt.Fprintf(&sb, "confirmation read during batch %d: ch=%d tag=%d %s (answers the publish of %s made for batch %d)\n", k.during, p.ch, p.tag, p.verdict, p.body, p.during)
+		stale := ""
+		if p.ch != k.curCh {
+			stale = fmt.Sprintf("  [STALE: read while channel %d is current]", k.curCh)
+		}
+		fmt.Fprintf(&sb, "confirmation read during batch %d: ch=%d tag=%d %s (answers the publish of %s made for batch %d)%s\n", k.during, p.ch, p.tag, p.verdict, p.body, p.during, stale)
 	}
-	fmt.Fprintf(&sb, "written %v terminated %v\n", r.written, r.terminated)
+	if r.blocked {
+		fmt.Fprintf(&sb, "BLOCKED: no outcome for batch %d within %v (%d confirmations delivered and unread); case cut\n", r.blockedAt, blockWait, r.blockedQ)
+	}
+	fmt.Fprintf(&sb, "written %v terminated %v blocked %v\n", r.written, r.terminated, r.blocked)
 	for _, v := range monitor(c, r) {
 		fmt.Fprintf(&sb, "MONITOR %s [%s]: %s\n", v.Property, v.Signature, v.What)
 	}
